@@ -6,6 +6,34 @@ HERE = os.path.dirname(os.path.dirname(os.path.abspath(__file__)))
 
 # id -> (category, technique, level text, level note, design ref)
 CHECKS = {
+ "C01": ("exploration", "proptest-generated related-sample collections through the real `ragc create`, round-trip oracle against the input (library reader + `ragc getset`)",
+         "Collections are built by construction so that LZ groups, cost-based splits with re-orientation, IUPAC codes next to a knocked-out splitter, reverse-complemented segments, delta-id reuse, >50 samples and >50 group members occur (class histogram in the evidence); ~220 (quick) / ~6200 (thorough) archives per run. Exploration is the right level: the statement quantifies over inputs x parameters and the oracle (the input itself) is exact.",
+         "Inputs respect the callers' implicit preconditions (unique names, PanSN samples contiguous, every contig admissible by the queue). Sizes: contigs <= 12 kb, <= 126 samples.",
+         "DESIGN.md §6 C01"),
+ "C02": ("exploration", "differential testing of every generated archive against an independent AGC v3 decoder written from the format rules",
+         "Every archive of an own C01-style batch (~190 quick / ~6200 thorough) is parsed by vlib/src/agcref.rs, which shares no code with ragc, recovers all samples, and asserts the addressing rules the statement lists. A change applied consistently to ragc's writer and reader keeps C01 green and fails here.",
+         "The independent decoder is my reading of the AGC v3 rules; there is no C++ AGC binary in the sandbox to validate it against.",
+         "DESIGN.md §6 C02"),
+ "C09": ("exploration", "exhaustive small-alphabet pairs + proptest edit-script-derived (reference, target) pairs; round-trip oracle plus independent LZ-text decoder",
+         "All pairs with |ref|,|target| <= 6 over {A,C,N} (1.2*10^6), all targets <= 5 over {A,C,G,T,N,30} against fixed references, N runs 1..8 at all offsets are enumerated; 6*10^5 (quick) / 6*10^6 (thorough) structured random pairs up to 2 kb / 40 kb exercise matches, back-extension, '!' rewriting, elided lengths, N runs, code 30.",
+         "min match >= 5; the independent decoder defines the LZ-diff V2 text.",
+         "DESIGN.md §6 C09"),
+ "C10": ("exploration", "exhaustive short contigs + proptest contigs with splitter sets built from their own k-mers; positional tiling oracle from the statement",
+         "All contigs <= 9 over {A,C,N} for k<=3 (both entry points) are enumerated; 3*10^5 (quick) / 5*10^6 (thorough) random cases with k 1..32, dense / sparse / forced-last-k / adjacent splitters.",
+         "Which splitter occurrences are used is deliberately not asserted (not part of the statement).",
+         "DESIGN.md §6 C10"),
+ "C11": ("exploration", "proptest references vs naive k-mer counting, metamorphic permutation / reverse-complement relation, cross-variant and cross-thread-pool agreement",
+         "8*10^3 (quick) / 1.5*10^5 (thorough) references with repeats, duplicated contigs, N runs; a quarter of them also through the streaming / first-sample file variants (plain and gzip) and rayon pools of 1/2/4/16 threads.",
+         "FASTA files passed to the file-based variants contain no record without bases.",
+         "DESIGN.md §6 C11"),
+ "C12": ("exploration", "exhaustive short byte strings per symbol range + proptest strings on both sides of the repetitiveness threshold; inverse-function and independent-unpacker oracles",
+         "2.2*10^5 strings enumerated (all lengths/remainders for widths 4/3/2/1, max-symbol boundaries 3/4 5/6 15/16 at lengths 0..40); 6*10^3 (quick) / 2*10^5 (thorough) random strings up to 100 kB through both reference markers, all levels, and fresh-vs-reused compression contexts.",
+         "The zstd crate's decoder is the reference for ZSTD frames.",
+         "DESIGN.md §6 C12"),
+ "C13": ("exploration", "model-based (stateful) testing: generated operation histories vs a sequential container model and an independent footer parser; integer codec vs the format rule",
+         "6*10^3 (quick) / 1.5*10^5 (thorough) histories of register / add / add-buffered / flush / set-raw-size with metadata at every byte-length boundary, reopen, sequential and random-access reads; 4*10^5+ integer magnitudes.",
+         "Buffered parts use registered stream ids; file offsets stay < 2^32 (magnitudes up to 2^64-1 are covered for the integer codec and metadata only).",
+         "DESIGN.md §6 C13"),
  "C20": ("exploration", "exhaustive enumeration of small k / short strings + proptest random strings vs naive string model",
          "All 4^k windows for k<=8 and all strings up to length k+3 over {A,C,G,T,N} for small k are enumerated; k up to 32 (weighted to 31/32) is sampled with 2*10^5 (quick) / 5*10^6 (thorough) random strings. Exploration is the right level: the property is a pure function law and the risky region (k=32, shift 0) is reached by construction.",
          "Trusts the naive model in vlib/src/naive.rs (string reversal, left-aligned 2-bit packing). Callers' reset-at-non-ACGT protocol is part of the checked behaviour.",
